@@ -23,13 +23,14 @@ SPECIES = {
     'S2': [('B', ['B1']), ('C', ['C1', 'C2'])],
     'S3': [('D', ['D1']), ('D', ['D1']), ('E', ['E1'])],     # repeated residue inside a species
     'S4': [('F', ['F1', 'F2', 'F3'])],
+    'S5': [('M', ['M1']), ('M', ['M1'])],                    # homodimer: its residue pattern overlaps itself
     'W': [('W', ['OW'])],                                     # solvent, never loaded
 }
-LOADABLE = ('S1', 'S2', 'S3', 'S4')
-SYMBOLS = ('S1', 'S2', 'S3', 'S4', 'W')
+LOADABLE = ('S1', 'S2', 'S3', 'S4', 'S5')
+SYMBOLS = ('S1', 'S2', 'S3', 'S4', 'W', 'S5')
 NUMBERINGS = ('seq', 'alt', 'wrap', 'same')
 ATOMS_OF = {'A': ['A1', 'A2'], 'B': ['B1'], 'C': ['C1', 'C2'], 'D': ['D1'], 'E': ['E1'],
-            'F': ['F1', 'F2', 'F3'], 'W': ['OW']}
+            'F': ['F1', 'F2', 'F3'], 'W': ['OW'], 'M': ['M1']}
 # candidate topologies whose residue kinds may exist in a file while their sequence does not
 GHOST_SEQS = (('B', 'B'), ('C', 'C'), ('C', 'B'), ('E', 'D'), ('D', 'E'), ('D', 'D', 'D'),
               ('A', 'A'), ('A', 'W'), ('W', 'F'), ('F', 'A'))
@@ -131,7 +132,7 @@ class C11(Check):
     technique = ('exhaustive enumeration of molecule sequences x all loading-order permutations x loading mode on the '
                  'real System; oracle = the generator\'s own instance list with Python list semantics for len / index / '
                  'slice / iteration')
-    level_text = ('every sequence of up to 4 (quick) / 6 (thorough) molecules over 4 species + unloaded solvent, 4 '
+    level_text = ('every sequence of up to 4 (quick) / 6 (thorough) molecules over 5 species (one a homodimer whose residue pattern overlaps itself, in files up to 3/4 molecules) + unloaded solvent, 4 '
                   'residue-numbering classes, every loading-order permutation, both loading modes (with the oracle '
                   'after every add_ftop, i.e. every ordered subset of species), every index in [-n-1, n], the slice '
                   'cube {None,-2,-1,0,1,2,n}^3, and every topology without a matching run are executed on the real '
@@ -173,6 +174,8 @@ class C11(Check):
         i = 0
         for ln in range(1, unit['lmax'] + 1):
             for seq in itertools.product(SYMBOLS, repeat=ln):
+                if 'S5' in seq and ln > unit['sl']:          # the homodimer only in the shorter files
+                    continue
                 for num in NUMBERINGS:
                     if num != 'seq' and ln > unit['nl']:
                         continue
@@ -295,6 +298,12 @@ class C11(Check):
                 return 'index/exception-in-range', f'[{i}] of {n}: {type(exc).__name__}: {exc}'
             if f != wfp[i]:
                 return 'index/disagrees-with-iteration', f'[{i}] of {n}'
+        # a molecule handed out is the caller's: moving it must not show in what the System hands out next
+        if n:
+            m0 = syst[0]
+            m0.move(np.array([0.5, -0.25, 1.0]))
+            if fp_mol(syst[0]) != wfp[0] or fp_mol(syst[-n]) != wfp[0]:
+                return 'index/molecule-handed-out-earlier-was-moved-and-the-next-fetch-shows-it', '[0]'
         # iteration interleaved with other accesses to the same System (index, a second live iterator)
         got2 = []
         other = iter(syst)
